@@ -70,6 +70,13 @@ def project_src(cmds):
             attr = ['#[tauri::command(rename_all = "%s")]', '#[tauri::command(async, rename_all = "%s")]', '#[tauri::command(rename_all = "%s", root = "crate")]',
                     '#[tauri::command(root = "crate", rename_all = "%s")]', '#[tauri::command(async, root = "crate", rename_all = "%s")]',
                     '#[command(rename_all = "%s")]'][c["macro_form"]] % c["macro_case"]
+        k_ = len(src)
+        if k_ % 3 == 0:
+            # functions between the commands that are nobody's command — another crate's `command` attribute, a plain helper, a test —
+            # with channels of their own in the signature: what they take says nothing about what the commands around them take
+            src.append(["#[poise::command(slash_command)]\npub async fn other_crate_cmd_%d(ctx: Context<'_>, sink: Channel<Msg>, extra_sink: Channel<String>) -> Result<(), String> {\n    todo!()\n}\n\n",
+                        "pub fn helper_%d(app: AppHandle, on_helper_event: Channel<Msg>, helper_flag: bool) {\n    todo!()\n}\n\n",
+                        "#[clap::command]\n#[allow(dead_code)]\nfn cli_entry_%d(on_cli: Channel<u8>) {}\n\n"][(k_ // 3) % 3] % k_)
         src.append("%s\npub async fn %s%s%s(%s) -> Result<(), String> {\n    todo!()\n}\n\n" % (attr, "r#" if c.get("raw") else "", c["name"], generic, ps))
     return [("lib.rs", "".join(src))]
 
